@@ -193,6 +193,15 @@ def parseDRec (s : String) : Option DRec :=
     some { k := natOf k, sess := natOf id, octets := bytesOfHex oct, rdEnd := parseRdEnd e, ret := parseRes r, finished := true }
   | _ => none
 
+/-- A panic log line written by the delivery goroutine is asynchronous to the command loop: it can land between
+    two `Write` calls of one multi-line reply.  Its position relative to the surrounding writes carries no
+    information, so it is moved in front of them and the writes are rejoined. -/
+def joinAroundPanics : List Ev → List Ev
+  | .w a :: .panicLog :: .w b :: rest => .panicLog :: joinAroundPanics (.w (a ++ b) :: rest)
+  | e :: rest => e :: joinAroundPanics rest
+  | [] => []
+termination_by l => l.length
+
 /-- an answer line → `(events, records, unparsable pieces)` -/
 def parseAnswer (a : List String) : List Ev × List DRec × List String :=
   match a with
@@ -201,7 +210,7 @@ def parseAnswer (a : List String) : List Ev × List DRec × List String :=
     let dParts := if dS == "" then [] else dS.splitOn ";"
     let evs := evParts.map (fun p => (p, parseEv p))
     let ds := dParts.map (fun p => (p, parseDRec p))
-    (evs.filterMap (·.2), ds.filterMap (·.2),
+    (joinAroundPanics (evs.filterMap (·.2)), ds.filterMap (·.2),
      (evs.filter (·.2.isNone)).map (·.1) ++ (ds.filter (·.2.isNone)).map (·.1))
   | _ => ([], [], ["no answer"])
 
